@@ -300,6 +300,25 @@ pub fn run(ctx: &mut crate::Ctx) {
             pair!("from_select (qualified columns)", WithClause::new().cte(CommonTableExpression::from_select(qsel())).to_owned().query(sel(&a)),
                 WithClause::new().cte(CommonTableExpression::new().query(qsel()).columns([id(&format!("{}_{}", a.t, a.a)), id(&format!("sch_{}_{}", a.t, a.b))]).table_name(id(&tn)).to_owned()).to_owned().query(sel(&a)));
         }
+        // ---- TableRef::alias adds or replaces the alias of every kind of table reference
+        {
+            use sea_query::SeaRc;
+            let f = |t: TableRef| { let mut s = Query::select(); s.column(Asterisk).from(t); s };
+            let i = |x: &str| -> DynIden { SeaRc::new(id(x)) };
+            pair!("TableRef::alias (table)", f(id(&a.t).into_table_ref().alias(id("x"))), f(TableRef::TableAlias(i(&a.t), i("x"))));
+            pair!("TableRef::alias (re-alias)", f(id(&a.t).into_table_ref().alias(id("y")).alias(id("x"))), f(TableRef::TableAlias(i(&a.t), i("x"))));
+            pair!("TableRef::alias (schema.table)", f((id("s"), id(&a.t)).into_table_ref().alias(id("x"))), f(TableRef::SchemaTableAlias(i("s"), i(&a.t), i("x"))));
+            pair!("TableRef::alias (schema.table re-alias)", f((id("s"), id(&a.t)).into_table_ref().alias(id("y")).alias(id("x"))), f(TableRef::SchemaTableAlias(i("s"), i(&a.t), i("x"))));
+            pair!("TableRef::alias (db.schema.table)", f((id("d"), id("s"), id(&a.t)).into_table_ref().alias(id("x"))), f(TableRef::DatabaseSchemaTableAlias(i("d"), i("s"), i(&a.t), i("x"))));
+            pair!("TableRef::alias (db.schema.table re-alias)", f((id("d"), id("s"), id(&a.t)).into_table_ref().alias(id("y")).alias(id("x"))), f(TableRef::DatabaseSchemaTableAlias(i("d"), i("s"), i(&a.t), i("x"))));
+            pair!("TableRef::alias (sub-query)", f(TableRef::SubQuery(sub(&a), i("y")).alias(id("x"))), f(TableRef::SubQuery(sub(&a), i("x"))));
+            pair!("TableRef::alias (values list)", f(TableRef::ValuesList(vec![ValueTuple::Two(a.v1.clone(), a.v2.clone())], i("y")).alias(id("x"))), f(TableRef::ValuesList(vec![ValueTuple::Two(a.v1.clone(), a.v2.clone())], i("x"))));
+            pair!("TableRef::alias (function)", f(TableRef::FunctionCall(Func::cust(id("gen")).arg(a.e1.clone()), i("y")).alias(id("x"))), f(TableRef::FunctionCall(Func::cust(id("gen")).arg(a.e1.clone()), i("x"))));
+            pair!("select.from_as", { let mut s = Query::select(); s.column(Asterisk).from_as((id("s"), id(&a.t)), id("x")); s }, f(TableRef::SchemaTableAlias(i("s"), i(&a.t), i("x"))));
+            pair!("select.from_subquery", { let mut s = Query::select(); s.column(Asterisk).from_subquery(sub(&a), id("x")); s }, f(TableRef::SubQuery(sub(&a), i("x"))));
+            pair!("select.from_values", { let mut s = Query::select(); s.column(Asterisk).from_values([(1, "a"), (2, "b")], id("x")); s }, f(TableRef::ValuesList(vec![ValueTuple::Two(1.into(), "a".into()), ValueTuple::Two(2.into(), "b".into())], i("x"))));
+            pair!("select.from_function", { let mut s = Query::select(); s.column(Asterisk).from_function(Func::cust(id("gen")).arg(a.e1.clone()), id("x")); s }, f(TableRef::FunctionCall(Func::cust(id("gen")).arg(a.e1.clone()), i("x"))));
+        }
         // ---- expression helpers that exist on both `Expr` and `SimpleExpr`, and the extension traits
         {
             use sea_query::extension::postgres::{PgBinOper, PgExpr};
